@@ -251,3 +251,10 @@ def run(ctx):
         reach.report(ctx)
     ctx.require("workload:shared defuzzifier object")
     ctx.require("hook:Engine.is_ready", "hook:Engine.process", "event:is_ready:True", "event:is_ready:False", "event:process after ready", "converse:conjunction", "converse:disjunction", "converse:implication", "converse:aggregation", "converse:defuzzifier", "raise-site:Antecedent.activation_degree:missing operator surfaced", "raise-site:OutputVariable.defuzzify:missing operator surfaced")
+
+
+def passive(ctx, fl, probe):
+    """attach this property's always-on monitor to a foreign workload (the repository's test-suite, see vf/pytest_plugin.py)"""
+    mon = ReadyMonitor(ctx, fl)
+    mon.install(probe)
+    return None
